@@ -200,6 +200,27 @@ macro_rules! impl_quad {
             fn to_o(&self) -> QI<$d> { QI(self.left().to_o(), self.right().to_o()) }
             fn try_from_o(o: &QI<$d>) -> Option<Self> { Some(QuadInt::new(I::try_from_o(&o.0)?, I::try_from_o(&o.1)?)) }
             fn bounded() -> bool { I::bounded() }
+            /// schoolbook arithmetic on (a + b w), w^2 = p + q w: sums componentwise; product x = ac + bd p,
+            /// y = ad + bc + bd q. Inside the domain where the four partial products, bd p and the partial sums are
+            /// representable (symmetric range) an overflow is not an unavoidable intermediate overflow.
+            fn in_min_exact_domain(op: u8, a: &QI<$d>, b: &QI<$d>) -> Option<bool> {
+                if !I::bounded() { return None }
+                let fits = |x: &Z| I::try_from_o(x).is_some() && I::try_from_o(&(-x)).is_some();
+                let (p, q): (i64, i64) = if ($d as i32).rem_euclid(4) == 1 { ((($d as i32 - 1) / 4) as i64, 1) } else { ($d as i64, 0) };
+                match op {
+                    0 => Some(fits(&(&a.0 + &b.0)) && fits(&(&a.1 + &b.1))),
+                    1 => Some(fits(&(&a.0 - &b.0)) && fits(&(&a.1 - &b.1))),
+                    2 => {
+                        let (ac, bd, ad, bc) = (&a.0 * &b.0, &a.1 * &b.1, &a.0 * &b.1, &a.1 * &b.0);
+                        let bdp = &bd * z(p);
+                        let x = &ac + &bdp;
+                        let s = &ad + &bc;
+                        let y = &s + &bd * z(q);
+                        Some([&ac, &bd, &ad, &bc, &bdp, &x, &s, &y].iter().all(|v| fits(v)))
+                    }
+                    _ => None,
+                }
+            }
             fn gen(rng: &mut Rng, mag: Mag) -> QI<$d> {
                 let a = I::gen(rng, mag);
                 let b = if rng.chance(1, 5) { z(0) } else { I::gen(rng, mag) };
